@@ -11,6 +11,41 @@ I = z3.IntVal
 
 
 class ExprMixin:
+    # ------------------------------------------------------------------ heap reads with store-chain peeling
+    def rd(self, st, key, ref):
+        """Select(heap[key], ref), skipping stores to references the path condition proves distinct from ref."""
+        arr = st.h(key)
+        cur = arr
+        for _ in range(12):
+            if not (z3.is_app(cur) and cur.decl().kind() == z3.Z3_OP_STORE):
+                break
+            base, idx, val = cur.children()
+            if idx.eq(ref):
+                return val
+            if self.distinct_refs(idx, ref, st):
+                cur = base
+                continue
+            return z3.Select(cur, ref)
+        return z3.Select(cur, ref)
+
+    def distinct_refs(self, a, b, st):
+        key = (a.get_id(), b.get_id(), len(st.pc))
+        cache = self.__dict__.setdefault('_dcache', {})
+        if key in cache:
+            return cache[key]
+        if self.involves_bound([a, b]):
+            cache[key] = False
+            return False
+        s = z3.Solver()
+        s.set('timeout', 150)
+        for h in st.pc:
+            if not z3.is_quantifier(h):
+                s.add(h)
+        s.add(a == b)
+        r = s.check() == z3.unsat
+        cache[key] = r
+        return r
+
     # ------------------------------------------------------------------ basic helpers
     def truthy(self, v, st):
         t = v.t
@@ -66,8 +101,8 @@ class ExprMixin:
             raise Unsupported('string as sequence')
         else:
             raise Unsupported('%s is not list-like' % t)
-        n = z3.Select(st.h(self.eng.k_len()), v.z)
-        arr = z3.Select(st.h(self.eng.k_elem(et)), v.z)
+        n = self.rd(st, self.eng.k_len(), v.z)
+        arr = self.rd(st, self.eng.k_elem(et), v.z)
         return mk_seq(et, n, arr)
 
     def elem_type(self, v):
@@ -500,7 +535,7 @@ class ExprMixin:
             return zor([self.eq(x, e, st) for e in c.aux])
         t = c.t
         if isinstance(t, T.Dict):
-            has = z3.Select(st.h(self.eng.k_dhas(t.k)), c.z)
+            has = self.rd(st, self.eng.k_dhas(t.k), c.z)
             return z3.Select(has, coerce(x, t.k).z)
         if isinstance(t, T.Set):
             return z3.Select(c.z, coerce(x, t.elem).z)
@@ -538,9 +573,8 @@ class ExprMixin:
                 if pc is not None:
                     return self.call_contract(pc, [obj], {}, st, n)
             ft = self.eng.field_type(attr)
-            arr = st.h(self.eng.k_field(attr))
-            z = z3.Select(arr, obj.z)
-            if ft.reflike and not self.spec:
+            z = self.rd(st, self.eng.k_field(attr), obj.z)
+            if ft.reflike and (not self.spec or not self.involves_bound([z])):
                 st.assume(z <= st.h(('alloc',)))
                 st.assume(z >= 0)
                 if not ft.nullable:
@@ -572,9 +606,9 @@ class ExprMixin:
         if isinstance(t, T.Dict):
             self.nonnull(obj, st, 'subscript')
             k = coerce(idx, t.k)
-            has = z3.Select(st.h(self.eng.k_dhas(t.k)), obj.z)
+            has = self.rd(st, self.eng.k_dhas(t.k), obj.z)
             self.raise_if(st, z3.Not(z3.Select(has, k.z)), 'KeyError', 'dict lookup')
-            z = z3.Select(z3.Select(st.h(self.eng.k_dval(t.k, t.v)), obj.z), k.z)
+            z = z3.Select(self.rd(st, self.eng.k_dval(t.k, t.v), obj.z), k.z)
             return self.loaded(SV(t.v, z), st)
         if isinstance(t, T.Map):
             k = coerce(idx, t.k)
@@ -590,6 +624,11 @@ class ExprMixin:
             self.raise_if(st, z3.Or(idx.z >= ln, idx.z < -ln), 'IndexError', 'string index')
             j = self.norm_index(idx.z, ln)
             return SV(T.Str, z3.SubString(obj.z, j, 1))
+        if isinstance(t, T.Ref) and t.cls != '$any' and not self.spec:
+            m = self.eng.find_method(t.cls, '__getitem__')
+            if m is not None:
+                self.nonnull(obj, st, 'subscript')
+                return self.call_contract(m, [obj, idx], {}, st, n)
         if self.is_listlike(obj):
             if not isinstance(t, T.Seq):
                 self.nonnull(obj, st, 'subscript')
@@ -606,7 +645,7 @@ class ExprMixin:
 
     def loaded(self, v, st):
         """A reference read out of an allocated container is itself allocated (heap closure)."""
-        if v.t.reflike and not self.spec:
+        if v.t.reflike and (not self.spec or not self.involves_bound([v.z])):
             st.assume(v.z <= st.h(('alloc',)))
             st.assume(v.z >= 0)
             if not v.t.nullable:
